@@ -47,6 +47,7 @@ var trList = []trFunc{
 	{"CodeRoute", "route", "SendAllMatch.Dispatch", "SendAllMatch.Dispatch", false, false, nil, nil},
 	{"CodeRoute", "route", "SendFirstMatch.Dispatch", "SendFirstMatch.Dispatch", false, false, nil, nil},
 	{"CodeHasher", "route", "ConsistentHasher.GetDestinationIndex", "ConsistentHasher.GetDestinationIndex", true, true, nil, nil},
+	{"CodeHasher", "route", "ConsistentHashing.Dispatch", "ConsistentHashing.Dispatch", false, true, nil, nil},
 	{"CodeTable", "table", "Table.Dispatch", "Table.Dispatch", false, true, nil, nil},
 	{"CodeTable", "table", "Table.DispatchAggregate", "Table.DispatchAggregate", false, false, nil, nil},
 	{"CodeOrdered", "validate", "Ordered", "validate_Ordered", true, false, []string{"m:MapII", "h:Hasher64"}, []string{"m"}},
@@ -70,7 +71,7 @@ var leanTypes = map[string]string{
 	"[]byte": "Bytes", "string": "Bytes", "[][]byte": "List Bytes", "bool": "Bool", "int": "Int", "uint32": "Int", "int64": "Int",
 	"uint16": "Int", "uint": "Int", "float64": "F64", "error": "Err",
 	"*Matcher": "Matcher", "Matcher": "Matcher", "*Table": "Table", "*SendAllMatch": "SendAllMatch", "*SendFirstMatch": "SendFirstMatch",
-	"*ConsistentHasher": "ConsistentHasher", "*Aggregator": "Aggregator", "*keepSafe": "keepSafe", "RW": "RW",
+	"*ConsistentHasher": "ConsistentHasher", "*ConsistentHashing": "ConsistentHashing", "*Aggregator": "Aggregator", "*keepSafe": "keepSafe", "RW": "RW",
 	"route.Route": "RouteI", "*matcher.Matcher": "MatcherI", "*aggregator.Aggregator": "AggregatorI", "rewriter.RW": "RewriterI",
 }
 
@@ -96,6 +97,9 @@ var spliceMethods = map[string]bool{"Dispatch": true, "AddMaybe": true, "Shutdow
 
 // methods that change their receiver (a local or threaded variable): `x.M(args)` as a statement is `x := x.M args`
 var mutatorMethods = map[string]bool{"Write": true, "Reset": true}
+
+// translated methods that take the Env parameter
+var envMethods = map[string]bool{"GetDestinationIndex": true}
 
 var libFuncs = map[string]string{
 	"bytes.HasPrefix": "Lib.bytes_HasPrefix", "bytes.Contains": "Lib.bytes_Contains", "bytes.IndexByte": "Lib.bytes_IndexByte",
@@ -400,6 +404,12 @@ func (c *trCtx) call(x *ast.CallExpr) string {
 			return c.expr(f.X)
 		}
 		recv := par(c.expr(f.X))
+		if envMethods[f.Sel.Name] {
+			if !c.f.env {
+				fail("call of %s needs the Env parameter", fn)
+			}
+			return recv + "." + lid(f.Sel.Name) + " E " + c.args(x.Args)
+		}
 		if len(x.Args) == 0 {
 			return recv + "." + lid(f.Sel.Name)
 		}
